@@ -14,19 +14,49 @@ EXPLANATION = ('Static rules on debounce, throttle, sample and the buffers: R-a 
                'order under same-instant events.')
 ASSUMPTIONS = ['bool configuration fields that next() never writes have one value along a path (correlated branches are pruned)']
 
-# observer tag -> field path (relative to self) of the cell that parks an item until it is flushed
-PENDING = {
-    'ops::throttle::ThrottleObserver': 'trailing_value',
-    'ops::debounce::DebounceObserver': 'trailing_value',
-    'ops::sample::SourceObserver': 'value',
-    'ops::buffer::BufferObserver': 'data',
-    'ops::buffer::BufferWithCountObserver': 'data',
-}
-FLUSH_ON_COMPLETE = {
-    'ops::throttle::ThrottleObserver': 'trailing_value', 'ops::debounce::DebounceObserver': 'trailing_value', 'ops::sample::SampleObserver': 'value',
-    'ops::buffer::BufferObserver': 'data', 'ops::buffer::BufferWithCountObserver': 'data',
-}
-TASKS = ['ops::debounce::debounce_task', 'ops::throttle::throttle_task']
+# observers that park items in a pending cell until a boundary; the cell itself is found by its type (see pending_field)
+PENDING = ['ops::throttle::ThrottleObserver', 'ops::debounce::DebounceObserver', 'ops::sample::SourceObserver',
+           'ops::buffer::BufferObserver', 'ops::buffer::BufferWithCountObserver']
+FLUSH_ON_COMPLETE = ['ops::throttle::ThrottleObserver', 'ops::debounce::DebounceObserver', 'ops::sample::SampleObserver',
+                     'ops::buffer::BufferObserver', 'ops::buffer::BufferWithCountObserver']
+# operators whose scheduled one-shot task releases the pending item
+TASK_OWNERS = ['ops::debounce::DebounceObserver', 'ops::throttle::ThrottleObserver']
+
+
+def pending_field(cx, im, adt_path, depth=0):
+    """name of the field that parks items: a MutRc|MutArc<Option<P>> with P a parameter that is not an observer, a parameter
+    bounded by RcDerefMut (sample's value cell), a Vec<P>, or such a field one level down in a nested local struct"""
+    from ..core import Incomplete
+    F = cx.facts
+    adt = F.adts.get(adt_path)
+    if adt is None:
+        raise Incomplete('unknown observer type ' + adt_path)
+    st = F.ty(F.strip_refs(im['self']))
+    amap = dict(zip(adt['generics'], [F.tystr(a) for a in st.get('a', [])])) if depth == 0 else {}
+    bounds = {}
+    for p in im['preds']:
+        if p['k'] == 'trait':
+            bounds.setdefault(F.tystr(p['self']), set()).add(p['tr'])
+
+    def obs_param(t):
+        return t['k'] == 'param' and 'observer::Observer' in bounds.get(amap.get(t['n'], t['n']), set())
+    hits = []
+    for n, ti in roles.adt_fields(cx, adt_path):
+        t = F.ty(ti)
+        if roles.is_cell_of(F, t, lambda o: roles.is_option_of(F, o, lambda x: x['k'] == 'param' and not obs_param(x))):
+            hits.append(n)
+        elif t['k'] == 'param' and bounds.get(amap.get(t['n'], t['n']), set()) & {'rc::RcDerefMut', 'rc::RcDeref'}:
+            hits.append(n)
+        elif t['k'] == 'adt' and t['p'] in ('std::vec::Vec', 'std::collections::VecDeque') and t['a'] and F.ty(t['a'][0])['k'] == 'param':
+            hits.append(n)
+        elif t['k'] == 'adt' and t['p'] in F.adts and depth == 0 and t['p'].startswith('ops::'):
+            try:
+                hits.append(pending_field(cx, im, t['p'], 1))
+            except Incomplete:
+                pass
+    if len(hits) != 1:
+        raise Incomplete('cannot identify the pending-item cell of %s by its type (candidates %s)' % (adt_path, hits))
+    return hits[0]
 CONTROLS = ['R-a|<verif_controls::DoubleEdge<O, Item> as Observer>::next', 'R-d|verif_controls::clone_task']
 
 
@@ -49,10 +79,9 @@ def ra(cx):
     n = 0
     for im in cx.observer_impls():
         tag = roles.impl_tag(cx, im)
-        cell = PENDING.get(tag)
-        if cell is None and not (cx.control and tag == 'verif_controls::DoubleEdge'):
+        if tag not in PENDING and not (cx.control and tag == 'verif_controls::DoubleEdge'):
             continue
-        cell = cell or 'trailing_value'
+        cell = pending_field(cx, im, tag)
         n += 1
         fn = cx.method(im, 'next')
         g = cx.graph(fn['key'])
@@ -146,9 +175,9 @@ def rc(cx):
     seen = set()
     for im in cx.observer_impls():
         tag = roles.impl_tag(cx, im)
-        cell = FLUSH_ON_COMPLETE.get(tag)
-        if cell is None:
+        if tag not in FLUSH_ON_COMPLETE:
             continue
+        cell = pending_field(cx, im, tag)
         seen.add(tag)
         fn = cx.method(im, 'complete')
         g = cx.graph(fn['key'])
@@ -165,7 +194,19 @@ def rc(cx):
 def rd(cx):
     F = cx.facts
     res = []
-    keys = [F.crate + '::' + t for t in TASKS]
+    from ..core import sched_task_fn, SCHEDULE
+    keys = []
+    for im in cx.observer_impls():
+        if roles.impl_tag(cx, im) in TASK_OWNERS:
+            g0 = cx.graph(cx.method(im, 'next')['key'])
+            for x in g0.nodes:
+                if x['kind'] in ('call', 'enter') and x['name'] == SCHEDULE:
+                    info = sched_task_fn(cx, x)
+                    if info and info[1]:
+                        keys.append(info[1])
+    keys = sorted(set(keys))
+    if not cx.control and len(keys) < 2:
+        res.append(Finding(ID, 'R-d', 'floor', False, 'expected the debounce and throttle release tasks, found %d' % len(keys)))
     if cx.control:
         keys = [F.crate + '::verif_controls::clone_task']
     for k in keys:
@@ -178,6 +219,6 @@ def rd(cx):
         bad = [x for x in nexts if len(x['args']) < 2 or not mentions(x['args'][1], lambda e: e[0] == 'call' and e[1] in TAKE)
                or mentions(x['args'][1], lambda e: e[0] == 'call' and e[1] == 'std::clone::Clone::clone')]
         ok = bool(nexts) and not bad
-        res.append(Finding(ID, 'R-d', fn['path'], ok, 'the pending item leaves its cell by take()' if ok else
+        res.append(Finding(ID, 'R-d', fn['path'] if cx.control else 'release task of ' + fn['file'], ok, 'the pending item leaves its cell by take()' if ok else
                            'the timer task emits a copy and leaves the pending item in its cell: it is emitted again later', fn['span'], [node_desc(g, x) for x in bad]))
     return res
